@@ -282,3 +282,7 @@ REGISTRY['C19'] = lambda cx, replay=None: parsechecks.c19(cx)
 import clichecks
 REGISTRY['C17'] = lambda cx, replay=None: clichecks.c17(cx)
 REGISTRY['C18'] = lambda cx, replay=None: clichecks.c18(cx)
+
+
+import regexcheck
+REGISTRY['C20'] = lambda cx, replay=None: regexcheck.c20(cx)
